@@ -44,7 +44,12 @@ MUTANTS = [
     ("c04-leak-internal", "C04", SEQ, "read_only_message_times.append((time, ReadOnlyMessage(msg)))", "read_only_message_times.append((time, msg))", {"TS8"}),
     ("c04-refresh-order", "C04", SEQ, "            self._abs = self._rel.to_absolute_sequence()\n            self._abs_stale = False\n        return self._abs",
      "            self._abs_stale = False\n        return self._abs", {"TS3"}),
+    ("c04-conv-drops-control", "C04", ABS, "if msg.message_type != MessageType.INTERNAL:\n                message_to_add = msg.copy()", "if msg.message_type != MessageType.INTERNAL and msg.message_type != MessageType.CONTROL_CHANGE:\n                message_to_add = msg.copy()", {"CONV"}),
+    ("c04-conv-cap-flag", "C04", REL, "                current_point_in_time += msg.time\n                cap_message_exists = False", "                current_point_in_time += msg.time\n                cap_message_exists = True", {"CONV"}),
+    ("c04-conv-clock", "C04", ABS, "time=time - current_point_in_time))\n                current_point_in_time = time", "time=time - current_point_in_time))", {"CONV"}),
+    ("c04-cutoff-sort-first", "C04", ABS, "                        message_pairing[1].time = message_pairing[0].time + reduced_length\n\n        self.normalise_absolute()", "                        message_pairing[1].time = message_pairing[0].time + reduced_length", {"ABS-SORTED"}),
     # ---- C05
+    ("c05-argmin-dist", "C05", "scoda/misc/util.py", "candidate_distance = abs(candidate - element)", "candidate_distance = abs(candidate) - element", {"ARGMIN"}),
     ("c05-pitch-only-key", "C05", ABS, "note_key = (msg.channel, msg.note)", "note_key = msg.note", {"KEY2"}),
     ("c05-unsorted-removal", "C05", ABS, "enumerate(sorted(original_indices_to_remove))", "enumerate(original_indices_to_remove)", {"IDX1"}),
     ("c05-write-original", "C05", ABS, "message_to_append.time = valid_positions[\n                        find_minimal_distance(message_original_time, valid_positions)]", "message_to_append.time = message_original_time", {"GRID"}),
@@ -60,6 +65,7 @@ MUTANTS = [
     ("c06-drop-control", "C06", ABS, "if msg.message_type is not MessageType.NOTE_ON and msg.message_type is not MessageType.NOTE_OFF:",
      "if msg.message_type is not MessageType.NOTE_ON and msg.message_type is not MessageType.NOTE_OFF and msg.message_type is not MessageType.CONTROL_CHANGE:", {"KEEP"}),
     ("c06-pairings-pitch-only", "C06", ABS, "open_messages[msg.channel][msg.note] = len(message_pairings[msg.channel]) - 1", "open_messages[msg.note] = len(message_pairings[msg.channel]) - 1", {"KEY1", "KEY2"}),
+    ("c06-argmax", "C06", "scoda/misc/util.py", "if candidate_distance < distance:", "if candidate_distance > distance:", {"ARGMIN"}),
     # ---- C07
     ("c07-reset-on-skip", "C07", REL, "                    if len(note_list) != 1:\n                        continue", "                    if len(note_list) != 1:\n                        wait_buffer = 0\n                        continue", {"ACC1"}),
     ("c07-const-signature", "C07", REL, "if msg.numerator != current_ts_numerator or msg.denominator != current_ts_denominator:", "if msg.numerator != 4 or msg.denominator != current_ts_denominator:", {"SIG"}),
@@ -142,6 +148,7 @@ MUTANTS = [
     ("c17-no-onset", "C17", ABS, "            if self_msg.time != other_msg.time:\n                return False\n", "", {"EQ1"}),
     ("c17-no-len", "C17", ABS, "        if not len(self_pairings) == len(other_pairings):\n            return False\n", "", {"LEN"}),
     ("c17-flag-order", "C17", SEQ, "return self.abs.equals(other.abs, ignore_channel, ignore_time_signature, ignore_key_signature, ignore_velocity)", "return self.abs.equals(other.abs, ignore_channel, ignore_key_signature, ignore_time_signature, ignore_velocity)", {"DELEG"}),
+    ("c17-interleave-max", "C17", ABS, "next_channel_index = track_val_times.index(min(track_val_times))", "next_channel_index = track_val_times.index(max(track_val_times))", {"INTERLEAVE"}),
     # ---- C18
     ("c18-pad-full", "C18", REL, "time=padding_length - current_length))", "time=padding_length))", {"PAD"}),
     ("c18-channel-plus", "C18", REL, "            msg.channel = channel", "            msg.channel = channel\n            msg.note = msg.note", {"FR"}),
@@ -178,6 +185,7 @@ MUTANTS = [
     ("c01-sort-order", "C01", TOKF, "sort_order = [TokenisationPrefixes.TRACK.value, TokenisationPrefixes.VALUE.value,\n                  TokenisationPrefixes.VELOCITY.value, TokenisationPrefixes.PITCH.value]",
      "sort_order = [TokenisationPrefixes.PITCH.value, TokenisationPrefixes.TRACK.value, TokenisationPrefixes.VALUE.value,\n                  TokenisationPrefixes.VELOCITY.value]", {"TPL6"}),
     ("c01-no-pitch-guard", "C01", TOKF, "                if not (self.pitch_range[0] <= msg_note <= self.pitch_range[1]):\n                    raise TokenisationException(f\"Invalid note pitch: {msg_note}\")", "                pass", {"GUARD", "TPL1"}),
+    ("c01-interleave-cursor", "C01", ABS, "            channel_cur_index[next_channel_index] += 1\n            channel_nxt_times", "            channel_cur_index[next_channel_index] += 2\n            channel_nxt_times", {"INTERLEAVE"}),
     # ---- C02
     ("c02-missing-incr", "C02", TOKF, "        self.dictionary[TokenisationPrefixes.BAR.value] = 3\n        self._dictionary_size += 1", "        self.dictionary[TokenisationPrefixes.BAR.value] = 3", {"TPL2"}),
     ("c02-tsg-range", "C02", TOKF, "for time_signature in range(self.time_signature_range[0], self.time_signature_range[1] + 1):", "for time_signature in range(self.time_signature_range[0], self.time_signature_range[1]):", {"TPL1"}),
@@ -201,8 +209,9 @@ ANCHORS = {
     "C01": ["MultiTrackLargeVocabularyNotelikeTokeniser.tokenise", "MultiTrackLargeVocabularyNotelikeTokeniser.detokenise"],
     "C02": ["MultiTrackLargeVocabularyNotelikeTokeniser._construct_dictionary", "MultiTrackLargeVocabularyNotelikeTokeniser.tokenise"],
     "C03": ["MultiTrackLargeVocabularyNotelikeTokeniser.tokenise"],
-    "C04": ["Sequence.copy", "Sequence.overwrite_absolute_messages", "Sequence.messages_abs", "Sequence.scale", "Bar.__init__"],
-    "C05": ["AbsoluteSequence.quantise"],
+    "C04": ["Sequence.copy", "Sequence.overwrite_absolute_messages", "Sequence.messages_abs", "Sequence.scale", "Bar.__init__",
+            "AbsoluteSequence.to_relative_sequence", "RelativeSequence.to_absolute_sequence"],
+    "C05": ["AbsoluteSequence.quantise", "find_minimal_distance"],
     "C06": ["AbsoluteSequence.quantise_note_lengths", "AbsoluteSequence.get_message_pairings"],
     "C07": ["RelativeSequence.normalise_relative"],
     "C08": ["RelativeSequence.split"],
@@ -214,7 +223,7 @@ ANCHORS = {
     "C14": ["RelativeSequence.transpose", "Sequence.transpose", "Key.transpose_key"],
     "C15": ["AbsoluteSequence.merge", "Sequence.merge", "binary_insort"],
     "C16": ["RelativeSequence.split", "AbstractSequence.copy", "Sequence.sequences_split_bars", "Sequence.copy"],
-    "C17": ["AbsoluteSequence.equals"],
+    "C17": ["AbsoluteSequence.equals", "AbsoluteSequence.get_interleaved_message_pairings"],
     "C18": ["RelativeSequence.pad", "AbsoluteSequence.cutoff", "RelativeSequence.scale", "RelativeSequence.set_channel"],
     "C19": ["MultiTrackLargeVocabularyNotelikeTokeniser.get_info", "MultiTrackLargeVocabularyNotelikeTokeniser.detokenise"],
     "C20": ["CircleOfFifths.get_distance", "Key.transpose_key", "CircleOfFifths.from_distance"],
